@@ -14,7 +14,6 @@ import (
 	"github.com/imroc/req/v3/internal/verifh"
 	htmlcharset "golang.org/x/net/html/charset"
 	"golang.org/x/text/encoding"
-	"golang.org/x/text/encoding/charmap"
 	"golang.org/x/text/encoding/ianaindex"
 )
 
@@ -208,19 +207,26 @@ func c15DecID(e encoding.Encoding) string {
 	if e == nil {
 		return "none"
 	}
-	switch {
-	case e == charmap.Windows1252:
+	switch c15EncName(e) {
+	case "Windows 1252":
 		return "w1252"
-	case e == charmap.ISO8859_1:
+	case "ISO 8859-1":
 		return "latin1"
-	}
-	switch fmt.Sprint(e) {
 	case "UTF-16LE (Ignore BOM)":
 		return "u16le"
 	case "UTF-16BE (Ignore BOM)":
 		return "u16be"
 	}
 	return "tbl"
+}
+
+// c15EncName: x/text's own name of an encoding (htmlcharset.Lookup wraps the encoding in a
+// pointer to a one-field struct, printed as &{name}).
+func c15EncName(e encoding.Encoding) string {
+	if e == nil {
+		return ""
+	}
+	return strings.Trim(fmt.Sprint(e), "&{}")
 }
 
 // c15Tbl renders decode-table entries in=out;… for the driver.
